@@ -30,7 +30,7 @@ FORMS = ['aggregate-rows', 'aggregate-value', 'aggregate-values', 'aggregate-len
          'aggregate-multi-none', 'rowreduce', 'rowgroupmap', 'fold', 'groupselectfirst', 'groupselectlast', 'groupselectmin', 'groupselectmax',
          'mergeduplicates', 'merge', 'groupcountdistinctvalues', 'rowgroupby', 'rowgroupby-callable', 'valuecounts', 'valuecounter']
 REQUIRED = (['form:' + f for f in FORMS] + ['key-none-group', 'equal-but-different-type-keys-in-one-group', 'single-row-group-first', 'single-row-group-last',
-            'compound-key', 'chunked', 'presorted', 'header-only', 'rows-handed-to-recorders', 'min/max-tie', 'merge:header-only-table-not-last', 'mergeduplicates:non-default-missing', 'mergeduplicates:short-rows', 'key-by-index', 'merge:reverse', 'second-pass-compared', 'rows-without-a-key-cell', 'failing-first-pass', 'input-is-a-petl-view'])
+            'compound-key', 'chunked', 'presorted', 'header-only', 'rows-handed-to-recorders', 'min/max-tie', 'merge:header-only-table-not-last', 'mergeduplicates:non-default-missing', 'mergeduplicates:short-rows', 'merge:short-rows', 'key-by-index', 'merge:reverse', 'second-pass-compared', 'rows-without-a-key-cell', 'failing-first-pass', 'input-is-a-petl-view'])
 FAILFIRST_FORMS = ('aggregate-len', 'aggregate-values', 'groupselectfirst', 'groupselectlast', 'groupselectmin', 'groupselectmax')
 KPOOL = [None, 1, 1.0, True, 2, 'a', 'b', b'a', (1, 2), gen.D(2020, 1, 1), 0, False, '', ()]
 LISTKEY = [1, 2]      # a list-valued key cell is equivalent to the tuple (1, 2) under the ordering (C04): one group
@@ -60,7 +60,7 @@ def cases(ctx):
         key = 'k' if r < 0.6 else (('k', 'j') if r < 0.85 else (['k'] if f.startswith('aggregate') else ['k', 'j']))
         if f in ('groupselectfirst', 'groupselectlast', 'groupselectmin', 'groupselectmax', 'rowreduce', 'rowgroupmap', 'fold') and rng.random() < 0.25:
             # the key as field index / indices (index 0 included); these forms do not echo the key argument in their header
-            key = rng.choice([0, 0, 1, (0, 1), (1,), (0,), [1, 0]])
+            key = rng.choice([0, 0, 1, (0, 1), (1,), (0,), [1, 0], -1, -4, (-4, 1), (-3,), -2])      # an index may count from the end
         elif rng.random() < 0.08 and f not in ('valuecounts', 'valuecounter'):
             key = rng.choice([('k',), ('j',), 'j'])      # a one-element tuple selects the same single field as the bare name
         if f == 'groupcountdistinctvalues':
@@ -81,7 +81,7 @@ def cases(ctx):
                     del r_[rng.choice([0, 0, 1]):]
         if f in ('mergeduplicates', 'merge') and rng.random() < 0.5:
             c['missing'] = rng.choice(['NA', 0, 'x'])
-            if f == 'mergeduplicates':
+            if f in ('mergeduplicates', 'merge'):
                 for r_ in t[1:]:
                     if rng.random() < 0.35:
                         del r_[rng.randint(2, 3):]          # short rows (key fields k, j stay)
@@ -90,11 +90,17 @@ def cases(ctx):
 
 # ---------------------------------------------------------------------------
 
+def _kc(r, i):
+    """the key cell of row r at index i; an index may count from the end of the row as it is (row[-1] is the row's own last cell);
+    a cell the row does not have counts as None"""
+    return r[i] if -len(r) <= i < len(r) else None
+
+
 def _groups(rows, kidx):
     """reference grouping: [(representative key values, [rows in input order])] in ascending model order"""
     groups = []
     for r in rows:
-        k = tuple((r[i] if i < len(r) else None) for i in kidx)       # a key cell the row does not have counts as None
+        k = tuple(_kc(r, i) for i in kidx)       # a key cell the row does not have counts as None
         for g in groups:
             if util.model_cmp(g[0], k) == 0:
                 g[1].append(r)
@@ -135,9 +141,9 @@ def judge(case, ctx):
         ctx.seen('key-by-index')
     if any(all(x is None for x in g[0]) for g in groups):
         ctx.seen('key-none-group')
-    if any(len(r) <= max(kidx) for r in rows):
+    if any(_kc(r, i) is None and not (-len(r) <= i < len(r)) for r in rows for i in kidx):
         ctx.seen('rows-without-a-key-cell')
-    if any(len({util.canon(tuple((r[i] if i < len(r) else None) for i in kidx)) for r in g[1]}) > 1 for g in groups):
+    if any(len({util.canon(tuple(_kc(r, i) for i in kidx)) for r in g[1]}) > 1 for g in groups):
         ctx.seen('equal-but-different-type-keys-in-one-group')
     if groups and len(groups[0][1]) == 1:
         ctx.seen('single-row-group-first')
@@ -154,7 +160,7 @@ def judge(case, ctx):
     if presorted:
         ctx.seen('presorted')
         kw['presorted'] = True
-        src = [hdr] + sorted(table[1:], key=lambda r: util.model_key(tuple((r[i] if i < len(r) else None) for i in kidx)))
+        src = [hdr] + sorted(table[1:], key=lambda r: util.model_key(tuple(_kc(r, i) for i in kidx)))
     vi, idi = hdr.index('v'), hdr.index('id')
     out = []
     if wrapfn is not None:
@@ -230,7 +236,7 @@ def judge(case, ctx):
 
     def keycells(g):
         # petl reports the key of the first row of the group
-        return tuple((g[1][0][i] if i < len(g[1][0]) else None) for i in kidx)
+        return tuple(_kc(g[1][0], i) for i in kidx)
     khdr = tuple(hdr[i] for i in kidx)
     keyarg = key
     if form.startswith(('aggregate', 'mergeduplicates', 'merge', 'groupcountdistinctvalues')) and 'none' not in form:
@@ -390,6 +396,11 @@ def judge(case, ctx):
         if rev:
             kw2['reverse'] = True          # merge forwards it to mergesort: the groups then come in descending key order
             ctx.seen('merge:reverse')
+        # (merge hands `missing` to mergesort only, where it pads short rows; the merging of duplicates always takes None for
+        # "no value": the default is used here, so a cell a row lacks contributes nothing)
+        missing = None
+        if any(len(r) < len(hdr) for r in rows):
+            ctx.seen('merge:short-rows')
         got = two_passes(lambda: petl.merge(*parts, key=mk, **kw2))
         others = [i for i in range(len(hdr)) if i not in kidx]
         exp = [khdr + tuple(hdr[i] for i in others)]
@@ -398,9 +409,9 @@ def judge(case, ctx):
             for i in others:
                 vals = []
                 for r in g[1]:
-                    if r[i] is not None and not any(r[i] == x for x in vals):
+                    if i < len(r) and r[i] != missing and not any(r[i] == x for x in vals):
                         vals.append(r[i])
-                o.append(vals[0] if len(vals) == 1 else (None if not vals else ('CONFLICT', frozenset(vals))))
+                o.append(vals[0] if len(vals) == 1 else (missing if not vals else ('CONFLICT', frozenset(vals))))
             exp.append(tuple(o))
         if not isinstance(got, util.Raised):
             got = [tuple(('CONFLICT', frozenset(c)) if isinstance(c, Conflict) else c for c in r) for r in got]
